@@ -20,6 +20,10 @@ METHODS = [
     ("rsplit", (" ",)), ("casefold", ()), ("isdigit", ()), ("rpartition", (" ",)), ("center", (5, "ab")), ("removeprefix", ("a",)),
 ]
 SEPS = ["a", " ", "ab", "\n", "  ", "b ", ".", "+", "a."]
+# patterns that only mean something as regular expressions (character classes, repetition, alternation, patterns that can match the empty
+# string); (pattern, the same pattern without capturing groups - "capture groups are ignored")
+REGEX_SEPS = [(r"\s+", r"\s+"), (r"\s", r"\s"), (r" +", r" +"), (r"a|b", r"a|b"), (r"[ab.]", r"[ab.]"), (r"(a)(b)?", r"(?:a)(?:b)?"), (r"\n|\.", r"\n|\."),
+              (r"\s*\.\s*", r"\s*\.\s*"), (r"a+", r"a+"), (r"\s*", r"\s*"), (r"b*", r"b*"), (r"$", r"$"), (r"\b", r"\b"), (r"(?=a)", r"(?=a)"), (r"\\s\+", r"\\s\+")]
 
 
 def items_of(cs):
@@ -81,11 +85,14 @@ def check_value(runs, order, value=None):
             if res != exp:
                 return f"{call}: {res!r}, str gives {exp!r}"
     # split with an explicit separator, literal and regex, in the order given by `order`
-    modes = [(sep, rx) for sep in SEPS for rx in ((False, True) if order else (True, False))]
+    modes = [(sep, rx) for sep in SEPS for rx in ((False, True) if order else (True, False))] + [(pair, True) for pair in REGEX_SEPS]
+    if not order:
+        modes.reverse()
     for sep, rx in modes:
         if rx:
+            sep, plain_pat = sep if isinstance(sep, tuple) else (sep, sep)
             try:
-                exp = re.split("(?:%s)" % sep, txt)
+                exp = re.split("(?:%s)" % plain_pat, txt)
             except re.error:
                 continue
         else:
